@@ -856,7 +856,10 @@ def oracle_world(case):
         if fld is not None and name == "incr" and o0["searching"]:
             f0 = o0["fields"][fld]
             ic = case["fields"][fld][0]
-            if f0["sdir"] == op[1]:
+            # requested direction: the same direction key twice in a row (same focus) asks for a move
+            again = (i > 0 and case["ops"][i - 1][0] == "incr" and case["ops"][i - 1][1] == op[1]
+                     and obs[i - 1]["searching"] and obs[i - 1]["focus"] == o0["focus"])
+            if f0["sdir"] == op[1] or again:
                 v.extend(check_move(tag, b0[0], b0[1], b0[2], f0["text"], ic, op[1], 0, 1, b1[1], b1[2]))
             elif tuple(b0) != tuple(b1):
                 bad("direction change moved", "changing direction must not move")
@@ -1140,10 +1143,15 @@ def oracle_keys(case):
                                     o1["widx"], o1["cur"], vi_fix=bool(vi)))
             if o1["searching"]:
                 bad("still searching", "accept did not leave the search field")
-        if name == "incr" and o0["searching"] and o0["sdir"] == op[1]:
+        # the direction REQUESTED by the user: a direction key pressed for the second time in a row asks
+        # for the next occurrence in that direction whatever the code remembers as its direction (the
+        # first press turned the search around); on the code as it is the two conditions coincide
+        again = (name == "incr" and i > 0 and case["ops"][i - 1][0] == "incr" and case["ops"][i - 1][1] == op[1]
+                 and obs[i - 1]["searching"] and o0["searching"])
+        if name == "incr" and o0["searching"] and (o0["sdir"] == op[1] or again):
             v.extend(check_move(tag, o0["lines"], o0["widx"], o0["cur"], o0["field"], ic, op[1], 0, 1,
                                 o1["widx"], o1["cur"]))
-        if name == "incr" and o0["searching"] and o0["sdir"] != op[1] and main0 != main1:
+        if name == "incr" and o0["searching"] and o0["sdir"] != op[1] and not again and main0 != main1:
             bad("direction change moved", "changing direction must not move")
         if name in ("next", "prev") and not o0["searching"]:
             d = o0["sdir"] if name == "next" else (B if o0["sdir"] == F else F)
